@@ -163,8 +163,10 @@ class MessagePackDocument(HierDictDocument):
         else:
             try:
                 ctx.in_document = msgpack.unpackb(b''.join(ctx.in_string))
-            except ValueError as e:
-                raise MessagePackDecodeError(' '.join(e.args))
+            except (ValueError, TypeError,
+                                      msgpack.exceptions.UnpackException) as e:
+                # TypeError: eg. a map that has a map or a list as key
+                raise MessagePackDecodeError(' '.join(str(a) for a in e.args))
 
     def gen_method_request_string(self, ctx):
         """Uses information in context object to return a method_request_string.
@@ -221,9 +223,10 @@ class MessagePackRpc(MessagePackDocument):
             ctx.in_document = msgpack.unpackb(b''.join(ctx.in_string),
                                                          **self.kwargs_unpacker)
 
-
-        except ValueError as e:
-            raise MessagePackDecodeError(''.join(e.args))
+        except (ValueError, TypeError,
+                                      msgpack.exceptions.UnpackException) as e:
+            # TypeError: eg. a map that has a map or a list as key
+            raise MessagePackDecodeError(''.join(str(a) for a in e.args))
 
         try:
             len(ctx.in_document)
@@ -251,17 +254,22 @@ class MessagePackRpc(MessagePackDocument):
                 msgname_or_error = msgname_or_error.decode(
                                                    self.default_string_encoding)
 
+        if isinstance(msgtype, (list, dict)):
+            raise MessagePackDecodeError("Unknown message type %r" % (msgtype,))
+
         if msgtype == MessagePackRpc.MSGPACK_REQUEST:
-            assert message == MessagePackRpc.REQUEST
+            if message != MessagePackRpc.REQUEST:
+                raise MessagePackDecodeError("Unexpected request message")
 
         elif msgtype == MessagePackRpc.MSGPACK_RESPONSE:
-            assert message == MessagePackRpc.RESPONSE
+            if message != MessagePackRpc.RESPONSE:
+                raise MessagePackDecodeError("Unexpected response message")
 
         elif msgtype == MessagePackRpc.MSGPACK_NOTIFY:
-            raise NotImplementedError()
+            raise MessagePackDecodeError("Notifications are not supported")
 
         else:
-            raise MessagePackDecodeError("Unknown message type %r" % msgtype)
+            raise MessagePackDecodeError("Unknown message type %r" % (msgtype,))
 
         ctx.method_request_string = '{%s}%s' % (self.app.interface.get_tns(),
                                                                msgname_or_error)
